@@ -7,19 +7,19 @@
    acceptance rules: entries in emission order without repeated keys, every key/value a fixed point of its field's
    canoniser and within MAX_VEC_SIZE, every key routed to its own field, the checks of the three `impl Decodable`
    (mandatory fields, version = 2, output completeness), declared counts = number of maps <= 10 000.
-   All theorems hold for every oracle (curve points, public keys, x-only keys, bitcoin transactions, xpubs, the four
+   All theorems hold for every oracle (curve points, public keys, x-only keys, the four
    preimage hashes, the two taproot hashes), every MAX_VEC_SIZE in [4, 2^64 - 2] and every element cap. *)
 From Coq Require Import List NArith Bool.
 From Coq.Strings Require Import Byte.
-From EV Require Import Base.Bytes Base.Codec Base.Base64 Gen.Tables Model.Taproot Model.PsetRaw Model.PsetMaps Model.PsetValues Model.PsetTables.
-From EV Require Import Proofs.PsetRaw Proofs.PsetMaps Proofs.PsetValues Proofs.PsetTables.
+From EV Require Import Base.Bytes Base.Codec Base.Base64 Gen.Tables Model.BtcTx Model.Taproot Model.PsetRaw Model.PsetMaps Model.PsetValues Model.PsetTables.
+From EV Require Import Proofs.BtcTx Proofs.PsetRaw Proofs.PsetMaps Proofs.PsetValues Proofs.PsetTables.
 Import ListNotations.
 Open Scope N_scope.
 
 (* ---- the tie to the source: the tables regenerated from the Rust text are consistent (same constant on the emitting and the
    parsing side of every field, every field reachable through its own key, every type name known, the magic bytes).  A changed constant or a dropped field changes these tables. *)
-Theorem C07_tables_consistent : forall maxvec c1 c2 c3 c4 o1 o2 o3 o4 o5 h1 h2 h3 h4 h5 h6,
-  tables_ok maxvec c1 c2 c3 c4 o1 o2 o3 o4 o5 h1 h2 h3 h4 h5 h6 = true.
+Theorem C07_tables_consistent : forall maxvec c1 c2 c3 c4 o1 o2 o3 h1 h2 h3 h4 h5 h6,
+  tables_ok maxvec c1 c2 c3 c4 o1 o2 o3 h1 h2 h3 h4 h5 h6 = true.
 Proof. intros. vm_compute. reflexivity. Qed.
 
 Section C07.
@@ -27,21 +27,21 @@ Variable maxvec : N.
 Hypothesis Hmax : maxvec + 1 < 2 ^ 64.
 Hypothesis Hmin : 4 <= maxvec.
 Variables cap_txin cap_txout cap_vecu8 cap_h32 : N.
-Variables pt_ok pk_ok xonly_ok btctx_ok xpub_ok : bytes -> bool.
+Variables pt_ok pk_ok xonly_ok : bytes -> bool.
 Variables Hrip Hsha Hh160 Hh256 : bytes -> bytes.
 Variables Hleaf Hbranch : bytes -> bytes.
 
-Notation SER := (pset_serialize maxvec cap_txin cap_txout cap_vecu8 cap_h32 pt_ok pk_ok xonly_ok btctx_ok xpub_ok Hrip Hsha Hh160 Hh256 Hleaf Hbranch).
-Notation DESER := (pset_deserialize maxvec cap_txin cap_txout cap_vecu8 cap_h32 pt_ok pk_ok xonly_ok btctx_ok xpub_ok Hrip Hsha Hh160 Hh256 Hleaf Hbranch).
-Notation WF := (wf_pset_c maxvec cap_txin cap_txout cap_vecu8 cap_h32 pt_ok pk_ok xonly_ok btctx_ok xpub_ok Hrip Hsha Hh160 Hh256 Hleaf Hbranch).
+Notation SER := (pset_serialize maxvec cap_txin cap_txout cap_vecu8 cap_h32 pt_ok pk_ok xonly_ok Hrip Hsha Hh160 Hh256 Hleaf Hbranch).
+Notation DESER := (pset_deserialize maxvec cap_txin cap_txout cap_vecu8 cap_h32 pt_ok pk_ok xonly_ok Hrip Hsha Hh160 Hh256 Hleaf Hbranch).
+Notation WF := (wf_pset_c maxvec cap_txin cap_txout cap_vecu8 cap_h32 pt_ok pk_ok xonly_ok Hrip Hsha Hh160 Hh256 Hleaf Hbranch).
 Notation EQUIV := (pset_equiv maxvec Hleaf Hbranch).
-Notation TG := (Tg maxvec cap_txin cap_txout cap_vecu8 cap_h32 pt_ok pk_ok xonly_ok btctx_ok xpub_ok Hrip Hsha Hh160 Hh256 Hleaf Hbranch).
-Notation TI := (Ti maxvec cap_txin cap_txout cap_vecu8 cap_h32 pt_ok pk_ok xonly_ok btctx_ok xpub_ok Hrip Hsha Hh160 Hh256 Hleaf Hbranch).
-Notation TO := (To maxvec cap_txin cap_txout cap_vecu8 cap_h32 pt_ok pk_ok xonly_ok btctx_ok xpub_ok Hrip Hsha Hh160 Hh256 Hleaf Hbranch).
-Notation POSTG := (postg maxvec cap_txin cap_txout cap_vecu8 cap_h32 pt_ok pk_ok xonly_ok btctx_ok xpub_ok Hrip Hsha Hh160 Hh256 Hleaf Hbranch).
-Notation POSTI := (posti maxvec cap_txin cap_txout cap_vecu8 cap_h32 pt_ok pk_ok xonly_ok btctx_ok xpub_ok Hrip Hsha Hh160 Hh256 Hleaf Hbranch).
-Notation POSTO := (posto maxvec cap_txin cap_txout cap_vecu8 cap_h32 pt_ok pk_ok xonly_ok btctx_ok xpub_ok Hrip Hsha Hh160 Hh256 Hleaf Hbranch).
-Notation VCANON := (vcanon maxvec cap_txin cap_txout cap_vecu8 cap_h32 pt_ok pk_ok xonly_ok btctx_ok xpub_ok Hrip Hsha Hh160 Hh256 Hleaf Hbranch).
+Notation TG := (Tg maxvec cap_txin cap_txout cap_vecu8 cap_h32 pt_ok pk_ok xonly_ok Hrip Hsha Hh160 Hh256 Hleaf Hbranch).
+Notation TI := (Ti maxvec cap_txin cap_txout cap_vecu8 cap_h32 pt_ok pk_ok xonly_ok Hrip Hsha Hh160 Hh256 Hleaf Hbranch).
+Notation TO := (To maxvec cap_txin cap_txout cap_vecu8 cap_h32 pt_ok pk_ok xonly_ok Hrip Hsha Hh160 Hh256 Hleaf Hbranch).
+Notation POSTG := (postg maxvec cap_txin cap_txout cap_vecu8 cap_h32 pt_ok pk_ok xonly_ok Hrip Hsha Hh160 Hh256 Hleaf Hbranch).
+Notation POSTI := (posti maxvec cap_txin cap_txout cap_vecu8 cap_h32 pt_ok pk_ok xonly_ok Hrip Hsha Hh160 Hh256 Hleaf Hbranch).
+Notation POSTO := (posto maxvec cap_txin cap_txout cap_vecu8 cap_h32 pt_ok pk_ok xonly_ok Hrip Hsha Hh160 Hh256 Hleaf Hbranch).
+Notation VCANON := (vcanon maxvec cap_txin cap_txout cap_vecu8 cap_h32 pt_ok pk_ok xonly_ok Hrip Hsha Hh160 Hh256 Hleaf Hbranch).
 
 (* ---- every field of the three regenerated tables is reachable: the key get_pairs writes for it (plain type byte, or 0xFC with
    prefix "pset" and its subtype) is routed back to the same field by the decoder's dispatch, whatever the key data ---- *)
@@ -52,34 +52,38 @@ Proof. intros T H i r k v R A. apply (field_reachable maxvec Hmax Hmin T) with (
 
 (* ---- every well-formed PSET serializes to bytes that deserialize to the same PSET ---- *)
 Theorem C07_rt : forall p, WF p -> DESER (SER p) = POk p.
-Proof. exact (rt_c maxvec Hmax Hmin cap_txin cap_txout cap_vecu8 cap_h32 pt_ok pk_ok xonly_ok btctx_ok xpub_ok Hrip Hsha Hh160 Hh256 Hleaf Hbranch). Qed.
+Proof. exact (rt_c maxvec Hmax Hmin cap_txin cap_txout cap_vecu8 cap_h32 pt_ok pk_ok xonly_ok Hrip Hsha Hh160 Hh256 Hleaf Hbranch). Qed.
+(* the serialize -> send -> deserialize hop between two blinders (C09's `hop`) is the identity on every well-formed PSET: this IS C07_rt;
+   notes/C07.md lists which C07 fields carry the data C09's model keeps in a PSET *)
+Theorem C07_hop_identity : forall p, WF p -> DESER (SER p) = POk p.
+Proof. exact C07_rt. Qed.
 (* ---- and to base64 text that parses to the same PSET ---- *)
 Theorem C07_rt_text : forall p, WF p ->
-  from_str maxvec cap_txin cap_txout cap_vecu8 cap_h32 pt_ok pk_ok xonly_ok btctx_ok xpub_ok Hrip Hsha Hh160 Hh256 Hleaf Hbranch
-    (to_string maxvec cap_txin cap_txout cap_vecu8 cap_h32 pt_ok pk_ok xonly_ok btctx_ok xpub_ok Hrip Hsha Hh160 Hh256 Hleaf Hbranch p) = POk p.
-Proof. exact (rt_text_c maxvec Hmax Hmin cap_txin cap_txout cap_vecu8 cap_h32 pt_ok pk_ok xonly_ok btctx_ok xpub_ok Hrip Hsha Hh160 Hh256 Hleaf Hbranch). Qed.
+  from_str maxvec cap_txin cap_txout cap_vecu8 cap_h32 pt_ok pk_ok xonly_ok Hrip Hsha Hh160 Hh256 Hleaf Hbranch
+    (to_string maxvec cap_txin cap_txout cap_vecu8 cap_h32 pt_ok pk_ok xonly_ok Hrip Hsha Hh160 Hh256 Hleaf Hbranch p) = POk p.
+Proof. exact (rt_text_c maxvec Hmax Hmin cap_txin cap_txout cap_vecu8 cap_h32 pt_ok pk_ok xonly_ok Hrip Hsha Hh160 Hh256 Hleaf Hbranch). Qed.
 Theorem C07_base64 : forall bs, b64_dec (b64_enc bs) = Some bs.
 Proof. exact b64_roundtrip. Qed.
 
 (* ---- what the decoder accepts is well-formed: all acceptance rules hold of its output ---- *)
 Theorem C07_decoder_wf : forall bs p, DESER bs = POk p -> WF p.
-Proof. exact (deserialize_wf_c maxvec Hmax Hmin cap_txin cap_txout cap_vecu8 cap_h32 pt_ok pk_ok xonly_ok btctx_ok xpub_ok Hrip Hsha Hh160 Hh256 Hleaf Hbranch). Qed.
+Proof. exact (deserialize_wf_c maxvec Hmax Hmin cap_txin cap_txout cap_vecu8 cap_h32 pt_ok pk_ok xonly_ok Hrip Hsha Hh160 Hh256 Hleaf Hbranch). Qed.
 (* ---- for EVERY accepted byte string, decode-then-encode gives a canonical byte string that decodes to an equal PSET and
    re-encodes to itself (no exception class since fix aee9a45; the former refutation C07_taptree_fixpoint_refuted is gone) ---- *)
 Theorem C07_fixpoint : forall bs p, DESER bs = POk p ->
   let c := SER p in exists p', DESER c = POk p' /\ EQUIV p' p /\ SER p' = c.
-Proof. exact (fixpoint_full_c maxvec Hmax Hmin cap_txin cap_txout cap_vecu8 cap_h32 pt_ok pk_ok xonly_ok btctx_ok xpub_ok Hrip Hsha Hh160 Hh256 Hleaf Hbranch). Qed.
+Proof. exact (fixpoint_full_c maxvec Hmax Hmin cap_txin cap_txout cap_vecu8 cap_h32 pt_ok pk_ok xonly_ok Hrip Hsha Hh160 Hh256 Hleaf Hbranch). Qed.
 (* the laws of the value canonisers the fixpoint rests on: idempotent and never lengthening, for every type; for TapTree
    (through the C15 builder model and its completeness theorem) Deserialize then Serialize is the identity on accepted bytes *)
 Theorem C07_canon_idempotent : forall t k v c, VCANON t k v = POk c -> VCANON t k c = POk c.
-Proof. exact (vcanon_idem maxvec cap_txin cap_txout cap_vecu8 cap_h32 pt_ok pk_ok xonly_ok btctx_ok xpub_ok Hrip Hsha Hh160 Hh256 Hleaf Hbranch). Qed.
+Proof. exact (vcanon_idem maxvec cap_txin cap_txout cap_vecu8 cap_h32 pt_ok pk_ok xonly_ok Hrip Hsha Hh160 Hh256 Hleaf Hbranch). Qed.
 Theorem C07_canon_size : forall t k v c, VCANON t k v = POk c -> (length c <= length v)%nat.
-Proof. exact (vcanon_size maxvec cap_txin cap_txout cap_vecu8 cap_h32 pt_ok pk_ok xonly_ok btctx_ok xpub_ok Hrip Hsha Hh160 Hh256 Hleaf Hbranch). Qed.
+Proof. exact (vcanon_size maxvec cap_txin cap_txout cap_vecu8 cap_h32 pt_ok pk_ok xonly_ok Hrip Hsha Hh160 Hh256 Hleaf Hbranch). Qed.
 Theorem C07_taptree_identity : forall v c, canon_taptree maxvec Hleaf Hbranch v = POk c -> c = v.
 Proof. exact (taptree_id maxvec Hleaf Hbranch). Qed.
 (* commitments and generators are exactly 33 bytes (fix 838e50c) *)
 Theorem C07_commitment_length : forall k v c, (VCANON TyPedersen k v = POk c \/ VCANON TyGenerator k v = POk c) -> c = v /\ length v = 33%nat.
-Proof. exact (commitment_length maxvec cap_txin cap_txout cap_vecu8 cap_h32 pt_ok pk_ok xonly_ok btctx_ok xpub_ok Hrip Hsha Hh160 Hh256 Hleaf Hbranch). Qed.
+Proof. exact (commitment_length maxvec cap_txin cap_txout cap_vecu8 cap_h32 pt_ok pk_ok xonly_ok Hrip Hsha Hh160 Hh256 Hleaf Hbranch). Qed.
 
 (* ---- rejections ---- *)
 (* duplicate keys: in any map (any field table T), an encoding in which the same raw key occurs twice is rejected, provided the key
@@ -105,14 +109,26 @@ Proof. intros T H fuel a key v1 b v2 tail m Fa F1 Fb F2. apply (C07_rejects_dupl
    input: previous txid and index; output: script and the four completeness rules, which are `posto`) *)
 Theorem C07_rejects_missing_global : forall bs m rest, dec_map maxvec TG POSTG bs = POk (m, rest) ->
   missing TG m = false /\ get_opt m (idx C07_GLOBAL_FIELDS (blit_of "ver"%lb)) = Some two_le.
-Proof. exact (missing_g maxvec cap_txin cap_txout cap_vecu8 cap_h32 pt_ok pk_ok xonly_ok btctx_ok xpub_ok Hrip Hsha Hh160 Hh256 Hleaf Hbranch). Qed.
+Proof. exact (missing_g maxvec cap_txin cap_txout cap_vecu8 cap_h32 pt_ok pk_ok xonly_ok Hrip Hsha Hh160 Hh256 Hleaf Hbranch). Qed.
 Theorem C07_rejects_missing_input : forall bs m rest, dec_map maxvec TI POSTI bs = POk (m, rest) -> missing TI m = false.
-Proof. exact (missing_i maxvec cap_txin cap_txout cap_vecu8 cap_h32 pt_ok pk_ok xonly_ok btctx_ok xpub_ok Hrip Hsha Hh160 Hh256 Hleaf Hbranch). Qed.
+Proof. exact (missing_i maxvec cap_txin cap_txout cap_vecu8 cap_h32 pt_ok pk_ok xonly_ok Hrip Hsha Hh160 Hh256 Hleaf Hbranch). Qed.
 Theorem C07_rejects_missing_output : forall bs m rest, dec_map maxvec TO POSTO bs = POk (m, rest) -> missing TO m = false /\ POSTO m = None.
-Proof. exact (missing_o maxvec cap_txin cap_txout cap_vecu8 cap_h32 pt_ok pk_ok xonly_ok btctx_ok xpub_ok Hrip Hsha Hh160 Hh256 Hleaf Hbranch). Qed.
+Proof. exact (missing_o maxvec cap_txin cap_txout cap_vecu8 cap_h32 pt_ok pk_ok xonly_ok Hrip Hsha Hh160 Hh256 Hleaf Hbranch). Qed.
 (* inconsistent counts: whatever is accepted has declared counts equal to the number of maps, and nothing after the last map *)
 Theorem C07_rejects_count : forall bs p, DESER bs = POk p -> sanity_check n_inputs n_outputs p = true.
-Proof. exact (counts_c maxvec Hmax Hmin cap_txin cap_txout cap_vecu8 cap_h32 pt_ok pk_ok xonly_ok btctx_ok xpub_ok Hrip Hsha Hh160 Hh256 Hleaf Hbranch). Qed.
+Proof. exact (counts_c maxvec Hmax Hmin cap_txin cap_txout cap_vecu8 cap_h32 pt_ok pk_ok xonly_ok Hrip Hsha Hh160 Hh256 Hleaf Hbranch). Qed.
+(* ... and conversely: a byte string made of the magic, a global map and k further maps — ANY pairs, only well-framed — is accepted only
+   if k = declared inputs + declared outputs; so whenever the counts the global map declares differ from the number of maps present
+   (too few: the decoder runs into the end of the data; too many: bytes are left over) the byte string is rejected *)
+Theorem C07_rejects_count_converse : forall (gps : list rpair) (ms : list (list rpair)) p, Forall (fits maxvec) gps -> Forall (Forall (fits maxvec)) ms ->
+  DESER (magic ++ enc_rawmap maxvec gps ++ concat (map (enc_rawmap maxvec) ms)) = POk p ->
+  N.of_nat (length ms) = n_inputs (p_global p) + n_outputs (p_global p).
+Proof. exact (framed_count_c maxvec Hmax Hmin cap_txin cap_txout cap_vecu8 cap_h32 pt_ok pk_ok xonly_ok Hrip Hsha Hh160 Hh256 Hleaf Hbranch). Qed.
+Theorem C07_count_mismatch_rejected : forall (gps : list rpair) (ms : list (list rpair)) g r, Forall (fits maxvec) gps -> Forall (Forall (fits maxvec)) ms ->
+  dec_map maxvec TG POSTG (enc_rawmap maxvec gps ++ concat (map (enc_rawmap maxvec) ms)) = POk (g, r) ->
+  N.of_nat (length ms) <> n_inputs g + n_outputs g ->
+  exists e, DESER (magic ++ enc_rawmap maxvec gps ++ concat (map (enc_rawmap maxvec) ms)) = PErr e.
+Proof. exact (count_mismatch_rejected maxvec Hmax Hmin cap_txin cap_txout cap_vecu8 cap_h32 pt_ok pk_ok xonly_ok Hrip Hsha Hh160 Hh256 Hleaf Hbranch). Qed.
 (* invalid hash preimages *)
 Theorem C07_rejects_preimage : forall k v, Hsha v <> k -> VCANON TyPreSha k v = PErr EPreimage.
 Proof. intros k v H. exact (preimage_rejects Hsha k v H). Qed.
@@ -126,9 +142,46 @@ Theorem C07_elip : forall (T : table) m i k v, get_key (set_keyed T m i k v) i k
 Proof. intros T. exact (get_set T). Qed.
 Theorem C07_elip_other : forall (T : table) m i k v i' k', (i', k') <> (i, k) -> get_key (set_keyed T m i k v) i' k' = get_key m i' k'.
 Proof. intros T. exact (get_set_other T). Qed.
-Theorem C07_elip_survives : forall p i k v, WF p -> get_key (p_global p) i k = Some v ->
-  exists p', DESER (SER p) = POk p' /\ get_key (p_global p') i k = Some v.
-Proof. intros p i k v W G. exists p. split; [now apply C07_rt|exact G]. Qed.
+(* metadata set through the accessors on ANY well-formed PSET gives a well-formed PSET (MAX_VEC_SIZE >= 16 so that the prefixed keys fit), hence
+   survives serialization: no assumption on the result *)
+Section ELIP.
+Hypothesis Hmin16 : 16 <= maxvec.
+Notation ADD_ASSET := (add_asset_metadata maxvec cap_txin cap_txout cap_vecu8 cap_h32 pt_ok pk_ok xonly_ok Hrip Hsha Hh160 Hh256 Hleaf Hbranch).
+Notation ADD_TOKEN := (add_token_metadata maxvec cap_txin cap_txout cap_vecu8 cap_h32 pt_ok pk_ok xonly_ok Hrip Hsha Hh160 Hh256 Hleaf Hbranch).
+Notation SET_ABF_IN := (set_abf_input maxvec cap_txin cap_txout cap_vecu8 cap_h32 pt_ok pk_ok xonly_ok Hrip Hsha Hh160 Hh256 Hleaf Hbranch).
+Notation SET_ABF_OUT := (set_abf_output maxvec cap_txin cap_txout cap_vecu8 cap_h32 pt_ok pk_ok xonly_ok Hrip Hsha Hh160 Hh256 Hleaf Hbranch).
+Theorem C07_elip_asset_wf : forall p asset value, WF p ->
+  fitsb maxvec (hww_key maxvec C07_PSBT_ELEMENTS_HWW_GLOBAL_ASSET_METADATA asset) = true -> fitsb maxvec value = true -> WF (ADD_ASSET p asset value).
+Proof. intros p asset value W Fk Fv. apply (set_global_prop_wf maxvec Hmax Hmin); auto. now apply (hww_foreign maxvec Hmax Hmin16). Qed.
+Theorem C07_elip_token_wf : forall p token value, WF p ->
+  fitsb maxvec (hww_key maxvec C07_PSBT_ELEMENTS_HWW_GLOBAL_REISSUANCE_TOKEN token) = true -> fitsb maxvec value = true -> WF (ADD_TOKEN p token value).
+Proof. intros p token value W Fk Fv. apply (set_global_prop_wf maxvec Hmax Hmin); auto. now apply (hww_foreign maxvec Hmax Hmin16). Qed.
+Theorem C07_elip_abf_wf : forall p n abf, WF p -> fitsb maxvec abf = true -> WF (SET_ABF_IN p n abf) /\ WF (SET_ABF_OUT p n abf).
+Proof. intros p n abf W Fv. split; [apply (set_input_prop_wf maxvec Hmax Hmin)|apply (set_output_prop_wf maxvec Hmax Hmin)]; auto;
+  solve [eapply liquidex_fits; eassumption | eapply liquidex_foreign; eassumption]. Qed.
+Theorem C07_elip_survives : forall p asset value, WF p ->
+  fitsb maxvec (hww_key maxvec C07_PSBT_ELEMENTS_HWW_GLOBAL_ASSET_METADATA asset) = true -> fitsb maxvec value = true ->
+  let p' := ADD_ASSET p asset value in
+  get_asset_metadata maxvec p' asset = Some value /\ exists q, DESER (SER p') = POk q /\ get_asset_metadata maxvec q asset = Some value.
+Proof. intros p asset value W Fk Fv p'. assert (G : get_asset_metadata maxvec p' asset = Some value) by apply (get_set TG).
+  split; [exact G|]. exists p'. split; [apply C07_rt; now apply C07_elip_asset_wf|exact G]. Qed.
+Theorem C07_elip_token_survives : forall p token value, WF p ->
+  fitsb maxvec (hww_key maxvec C07_PSBT_ELEMENTS_HWW_GLOBAL_REISSUANCE_TOKEN token) = true -> fitsb maxvec value = true ->
+  let p' := ADD_TOKEN p token value in
+  get_token_metadata maxvec p' token = Some value /\ exists q, DESER (SER p') = POk q /\ get_token_metadata maxvec q token = Some value.
+Proof. intros p token value W Fk Fv p'. assert (G : get_token_metadata maxvec p' token = Some value) by apply (get_set TG).
+  split; [exact G|]. exists p'. split; [apply C07_rt; now apply C07_elip_token_wf|exact G]. Qed.
+Theorem C07_elip_abf_survives : forall p n abf m, WF p -> fitsb maxvec abf = true -> nth_error (p_inputs p) n = Some m ->
+  let p' := SET_ABF_IN p n abf in
+  get_abf_input maxvec p' n = Some abf /\ exists q, DESER (SER p') = POk q /\ get_abf_input maxvec q n = Some abf.
+Proof. intros p n abf m W Fv Hn p'.
+  assert (G : get_abf_input maxvec p' n = Some abf). { unfold get_abf_input, p', set_abf_input, set_input_prop. cbn [p_inputs]. rewrite (nth_upd_nth _ _ _ _ Hn). apply (get_set TI). }
+  split; [exact G|]. exists p'. split; [apply C07_rt; now apply C07_elip_abf_wf|exact G]. Qed.
+End ELIP.
+
+(* ---- the peg-in transaction: bitcoin::Transaction is a concrete codec (no oracle), exact / canonical / complete ---- *)
+Theorem C07_btctx_lawful : Lawful (c_btctx maxvec).
+Proof. exact (c_btctx_lawful maxvec). Qed.
 End C07.
 
 (* ================================================================ witnesses (kernel evaluation on concrete byte strings) *)
@@ -138,8 +191,8 @@ Definition nohash (_ : bytes) : bytes := [].
    it are equal under every hash) so that no executable SHA-256 (primitive integers) enters a theorem *)
 Definition tapleaf : bytes -> bytes := fun b => b.
 Definition tapbranch : bytes -> bytes := fun b => b.
-Definition deser0 := pset_deserialize 4000000 1000 1000 1000 1000 no no no no no nohash nohash nohash nohash tapleaf tapbranch.
-Definition ser0 := pset_serialize 4000000 1000 1000 1000 1000 no no no no no nohash nohash nohash nohash tapleaf tapbranch.
+Definition deser0 := pset_deserialize 4000000 1000 1000 1000 1000 no no no nohash nohash nohash nohash tapleaf tapbranch.
+Definition ser0 := pset_serialize 4000000 1000 1000 1000 1000 no no no nohash nohash nohash nohash tapleaf tapbranch.
 Definition hx (s : blit) : bytes := match bytes_of_hex s with Some b => b | None => [] end.
 
 (* regression witnesses of the three repaired findings, evaluated by the kernel on the regenerated tables:
@@ -155,9 +208,9 @@ Proof. vm_compute. reflexivity. Qed.
 Definition is_err {A} (x : pres A) : bool := match x with PErr _ => true | POk _ => false end.
 Definition gen32 : blit := blit_of "0a0101010101010101010101010101010101010101010101010101010101010101"%lb.
 Example C07_commitment_length_rejected :
-  is_err (vcanon 4000000 1000 1000 1000 1000 (fun _ => true) no no no no nohash nohash nohash nohash tapleaf tapbranch TyGenerator [] (firstn 32 (hx gen32))) = true /\
-  is_err (vcanon 4000000 1000 1000 1000 1000 (fun _ => true) no no no no nohash nohash nohash nohash tapleaf tapbranch TyGenerator [] (hx gen32 ++ [x00])) = true /\
-  is_err (vcanon 4000000 1000 1000 1000 1000 (fun _ => true) no no no no nohash nohash nohash nohash tapleaf tapbranch TyGenerator [] (hx gen32)) = false.
+  is_err (vcanon 4000000 1000 1000 1000 1000 (fun _ => true) no no nohash nohash nohash nohash tapleaf tapbranch TyGenerator [] (firstn 32 (hx gen32))) = true /\
+  is_err (vcanon 4000000 1000 1000 1000 1000 (fun _ => true) no no nohash nohash nohash nohash tapleaf tapbranch TyGenerator [] (hx gen32 ++ [x00])) = true /\
+  is_err (vcanon 4000000 1000 1000 1000 1000 (fun _ => true) no no nohash nohash nohash nohash tapleaf tapbranch TyGenerator [] (hx gen32)) = false.
 Proof. vm_compute. repeat split; reflexivity. Qed.
 
 (* non-vacuity: a real PSET (one explicit output; produced by the crate) is accepted, re-encodes to itself and satisfies every
@@ -168,19 +221,19 @@ Definition sample_check : bool :=
   | POk p => bytes_eqb (ser0 p) sample_input && Nat.eqb (length (p_outputs p)) 1
   | PErr _ => false end.
 Example C07_sample_wf : exists p, deser0 sample_input = POk p /\ ser0 p = sample_input /\
-  wf_pset_c 4000000 1000 1000 1000 1000 no no no no no nohash nohash nohash nohash tapleaf tapbranch p.
+  wf_pset_c 4000000 1000 1000 1000 1000 no no no nohash nohash nohash nohash tapleaf tapbranch p.
 Proof. assert (E : sample_check = true) by (vm_compute; reflexivity). unfold sample_check in E.
   destruct (deser0 sample_input) as [p|] eqn:D; [|discriminate]. exists p. split; [reflexivity|].
   apply andb_true_iff in E as [E _]. split; [now apply bytes_eqb_true|].
-  exact (C07_decoder_wf 4000000 ltac:(vm_compute; reflexivity) ltac:(vm_compute; discriminate) _ _ _ _ _ _ _ _ _ _ _ _ _ _ _ sample_input p D). Qed.
+  exact (C07_decoder_wf 4000000 ltac:(vm_compute; reflexivity) ltac:(vm_compute; discriminate) _ _ _ _ _ _ _ _ _ _ _ _ _ sample_input p D). Qed.
 
-Check (C07_rt : forall maxvec, maxvec + 1 < 2 ^ 64 -> 4 <= maxvec -> forall c1 c2 c3 c4 o1 o2 o3 o4 o5 h1 h2 h3 h4 h5 h6 p,
-  wf_pset_c maxvec c1 c2 c3 c4 o1 o2 o3 o4 o5 h1 h2 h3 h4 h5 h6 p ->
-  pset_deserialize maxvec c1 c2 c3 c4 o1 o2 o3 o4 o5 h1 h2 h3 h4 h5 h6 (pset_serialize maxvec c1 c2 c3 c4 o1 o2 o3 o4 o5 h1 h2 h3 h4 h5 h6 p) = POk p).
-Check (C07_fixpoint : forall maxvec, maxvec + 1 < 2 ^ 64 -> 4 <= maxvec -> forall c1 c2 c3 c4 o1 o2 o3 o4 o5 h1 h2 h3 h4 h5 h6 bs p,
-  pset_deserialize maxvec c1 c2 c3 c4 o1 o2 o3 o4 o5 h1 h2 h3 h4 h5 h6 bs = POk p ->
-  let c := pset_serialize maxvec c1 c2 c3 c4 o1 o2 o3 o4 o5 h1 h2 h3 h4 h5 h6 p in
-  exists p', pset_deserialize maxvec c1 c2 c3 c4 o1 o2 o3 o4 o5 h1 h2 h3 h4 h5 h6 c = POk p' /\ pset_equiv maxvec h5 h6 p' p /\
-             pset_serialize maxvec c1 c2 c3 c4 o1 o2 o3 o4 o5 h1 h2 h3 h4 h5 h6 p' = c).
-Check (C07_rejects_count : forall maxvec, maxvec + 1 < 2 ^ 64 -> 4 <= maxvec -> forall c1 c2 c3 c4 o1 o2 o3 o4 o5 h1 h2 h3 h4 h5 h6 bs p,
-  pset_deserialize maxvec c1 c2 c3 c4 o1 o2 o3 o4 o5 h1 h2 h3 h4 h5 h6 bs = POk p -> sanity_check n_inputs n_outputs p = true).
+Check (C07_rt : forall maxvec, maxvec + 1 < 2 ^ 64 -> 4 <= maxvec -> forall c1 c2 c3 c4 o1 o2 o3 h1 h2 h3 h4 h5 h6 p,
+  wf_pset_c maxvec c1 c2 c3 c4 o1 o2 o3 h1 h2 h3 h4 h5 h6 p ->
+  pset_deserialize maxvec c1 c2 c3 c4 o1 o2 o3 h1 h2 h3 h4 h5 h6 (pset_serialize maxvec c1 c2 c3 c4 o1 o2 o3 h1 h2 h3 h4 h5 h6 p) = POk p).
+Check (C07_fixpoint : forall maxvec, maxvec + 1 < 2 ^ 64 -> 4 <= maxvec -> forall c1 c2 c3 c4 o1 o2 o3 h1 h2 h3 h4 h5 h6 bs p,
+  pset_deserialize maxvec c1 c2 c3 c4 o1 o2 o3 h1 h2 h3 h4 h5 h6 bs = POk p ->
+  let c := pset_serialize maxvec c1 c2 c3 c4 o1 o2 o3 h1 h2 h3 h4 h5 h6 p in
+  exists p', pset_deserialize maxvec c1 c2 c3 c4 o1 o2 o3 h1 h2 h3 h4 h5 h6 c = POk p' /\ pset_equiv maxvec h5 h6 p' p /\
+             pset_serialize maxvec c1 c2 c3 c4 o1 o2 o3 h1 h2 h3 h4 h5 h6 p' = c).
+Check (C07_rejects_count : forall maxvec, maxvec + 1 < 2 ^ 64 -> 4 <= maxvec -> forall c1 c2 c3 c4 o1 o2 o3 h1 h2 h3 h4 h5 h6 bs p,
+  pset_deserialize maxvec c1 c2 c3 c4 o1 o2 o3 h1 h2 h3 h4 h5 h6 bs = POk p -> sanity_check n_inputs n_outputs p = true).
